@@ -347,6 +347,14 @@ func (r *sysmRunner) step(w []string) error {
 			if err := r.push(imap.NewMessageMailboxesUpdated(imap.MessageID(rid), mbs, fl)); err != nil {
 				return err
 			}
+		case "DELETE":
+			rid, ok := r.msgRid(w[2])
+			if !ok {
+				return fmt.Errorf("unknown message %s", w[2])
+			}
+			if err := r.push(imap.NewMessagesDeleted(imap.MessageID(rid))); err != nil {
+				return err
+			}
 		case "FLAG":
 			rid, ok := r.msgRid(w[2])
 			if !ok {
@@ -396,6 +404,12 @@ func (r *sysmRunner) step(w []string) error {
 		emit(sysmStatus(rep) + ":" + sysmCanonResps(rep.Untagged))
 	case "UNSELECT":
 		rep := c.Cmd("UNSELECT")
+		if rep.Status == "OK" {
+			r.selected[i] = ""
+		}
+		emit(sysmStatus(rep) + ":" + sysmCanonResps(rep.Untagged))
+	case "CLOSE":
+		rep := c.Cmd("CLOSE")
 		if rep.Status == "OK" {
 			r.selected[i] = ""
 		}
@@ -602,7 +616,10 @@ func sysmGenHistory(r *Rng, st *Stats) string {
 	}
 	ovt := 0
 	patterns := 0
-	for len(out) < steps {
+	delPatterns := 0
+	closePatterns := 0
+	extra := 0 // steps of the directed deletion / CLOSE shapes: not charged to the history's budget
+	for len(out)-extra < steps {
 		i := r.Intn(n)
 		force := -1
 		if overtaking && r.Chance(2, 5) {
@@ -672,6 +689,114 @@ func sysmGenHistory(r *Rng, st *Stats) string {
 				continue
 			}
 		}
+		// CLOSE shapes: the closing session expunges silently, the observer of the same mailbox is told by its next
+		// permitting command (inside NoOvertake: the closer's queue is empty, the observer runs no mutating command)
+		if closePatterns < 2 && force < 0 && r.Chance(1, 6) {
+			a, b := -1, -1
+			for x := range sess {
+				for y := range sess {
+					if x != y && sess[x].sel >= 0 && sess[x].sel == sess[y].sel && !sess[x].held && !sess[y].held {
+						a, b = x, y
+					}
+				}
+			}
+			if a >= 0 {
+				mb := sess[a].sel
+				name := sysmMboxNames[mb]
+				closePatterns++
+				start := len(out)
+				if r.Bool() {
+					add(fmt.Sprintf("S%d APPEND %s %s", b, name, Pick(r, []string{`\deleted`, `\deleted,\seen`})))
+					created++
+				} else {
+					add(fmt.Sprintf("S%d APPEND %s -", b, name))
+					created++
+					add(fmt.Sprintf("S%d STORE 1 %s \\deleted", b, Pick(r, []string{"+", "+s"})))
+				}
+				add(fmt.Sprintf("S%d NOOP", a))
+				if r.Bool() {
+					st.Inc("pattern.close-expunges-while-observer-holds")
+					add(fmt.Sprintf("X HOLD %d", a))
+					add(fmt.Sprintf("S%d CLOSE", b))
+					add(fmt.Sprintf("S%d PROBE", a))
+					add(fmt.Sprintf("X RELEASE %d -1", a))
+					add(fmt.Sprintf("S%d PROBE", a))
+					add(fmt.Sprintf("S%d NOOP", a))
+				} else {
+					st.Inc("pattern.close-expunges-observed")
+					add(fmt.Sprintf("S%d CLOSE", b))
+					add(fmt.Sprintf("S%d PROBE", a))
+					add(fmt.Sprintf("S%d NOOP", a))
+					add(fmt.Sprintf("S%d PROBE", b))
+				}
+				sess[b].sel = -1
+				bump(0, 0, a)
+				sess[a].seen = count[mb]
+				extra += len(out) - start
+				continue
+			}
+		}
+		// connector deletion shapes (inside NoOvertake: the observer runs no mutating command while updates are withheld)
+		if delPatterns < 2 && force < 0 && r.Chance(1, 6) {
+			a := -1
+			for x := range sess {
+				if sess[x].sel >= 0 && !sess[x].held {
+					a = x
+				}
+			}
+			if a >= 0 {
+				mb := sess[a].sel
+				name := sysmMboxNames[mb]
+				other := name
+				if nbox > 1 {
+					other = sysmMboxNames[(mb+1)%nbox]
+				}
+				delPatterns++
+				start := len(out)
+				add(fmt.Sprintf("C CREATE %s %s", name, Pick(r, []string{"-", `\seen`})))
+				created++
+				k := created
+				two := other != name && r.Chance(2, 3)
+				if r.Bool() {
+					// the deletion (of a message that is in two mailboxes) is queued while the observer holds: nothing may
+					// be announced before the release, no EXPUNGE without permission after it
+					st.Inc("pattern.delete-queued-while-held")
+					if two {
+						add(fmt.Sprintf("C BOXES m%d %s,%s", k, name, other))
+					}
+					add(fmt.Sprintf("S%d NOOP", a))
+					add(fmt.Sprintf("X HOLD %d", a))
+					add(fmt.Sprintf("C DELETE m%d", k))
+					add(fmt.Sprintf("S%d PROBE", a))
+					add(fmt.Sprintf("X RELEASE %d %d", a, Pick(r, []int{-1, -1, 1})))
+					add(fmt.Sprintf("S%d PROBE", a))
+					add(fmt.Sprintf("S%d NOOP", a))
+					add(fmt.Sprintf("X RELEASE %d -1", a))
+				} else {
+					// created, spread over two mailboxes and deleted while the observer has applied none of it; then
+					// the connector puts the (still known) message back
+					st.Inc("pattern.create-delete-while-held")
+					add(fmt.Sprintf("X HOLD %d", a))
+					if two {
+						add(fmt.Sprintf("C BOXES m%d %s,%s", k, name, other))
+					}
+					add(fmt.Sprintf("C DELETE m%d", k))
+					if r.Bool() {
+						add(fmt.Sprintf("C BOXES m%d %s", k, name))
+						count[mb]++
+					}
+					add(fmt.Sprintf("X RELEASE %d %d", a, Pick(r, []int{-1, 1, 2})))
+					add(fmt.Sprintf("S%d PROBE", a))
+					add(fmt.Sprintf("S%d NOOP", a))
+					add(fmt.Sprintf("X RELEASE %d -1", a))
+				}
+				add(fmt.Sprintf("S%d NOOP", a))
+				bump(0, 0, a)
+				sess[a].seen = count[mb]
+				extra += len(out) - start
+				continue
+			}
+		}
 		if s.sel < 0 {
 			mb := r.Intn(nbox)
 			if r.Chance(3, 4) {
@@ -704,7 +829,7 @@ func sysmGenHistory(r *Rng, st *Stats) string {
 				s.held, s.lag = true, 0
 			}
 		case c < 22: // connector
-			switch k := r.Intn(4); {
+			switch k := r.Intn(5); {
 			case k == 0 || created == 0:
 				mb := r.Intn(nbox)
 				fl := "-"
@@ -727,6 +852,10 @@ func sysmGenHistory(r *Rng, st *Stats) string {
 					x = strings.Join(mbs, ",")
 				}
 				add(fmt.Sprintf("C BOXES m%d %s", r.Range(1, created), x))
+				bump(0, 0, -1)
+			case k == 2:
+				// the connector deletes the message: it leaves every mailbox that holds it
+				add(fmt.Sprintf("C DELETE m%d", r.Range(1, created)))
 				bump(0, 0, -1)
 			default:
 				add(fmt.Sprintf("C FLAG m%d %s %d", r.Range(1, created), Pick(r, sysmStoreFlags[:2]), r.Intn(2)))
@@ -782,12 +911,12 @@ func sysmGenHistory(r *Rng, st *Stats) string {
 			if !s.held {
 				s.seen = count[s.sel]
 			}
-		case c < 96:
+		case c < 94:
 			add(fmt.Sprintf("S%d PROBE", i))
 			if !s.held {
 				s.seen = count[s.sel]
 			}
-		case c < 98:
+		case c < 96:
 			if s.held && s.lag > 0 {
 				ovt++
 			}
@@ -795,7 +924,16 @@ func sysmGenHistory(r *Rng, st *Stats) string {
 			add(fmt.Sprintf("S%d SELECT %s", i, sysmMboxNames[mb]))
 			s.sel, s.seen = mb, count[mb]
 		default:
-			add(fmt.Sprintf("S%d UNSELECT", i))
+			if r.Bool() {
+				add(fmt.Sprintf("S%d UNSELECT", i))
+			} else {
+				// CLOSE: the silent EXPUNGE of the session's mailbox, then unselect
+				if s.held && s.lag > 0 {
+					ovt++
+				}
+				add(fmt.Sprintf("S%d CLOSE", i))
+				bump(s.sel, -1, i)
+			}
 			s.sel = -1
 		}
 	}
